@@ -357,6 +357,11 @@ RAW = {
     "frac-cap": ("uint8[3/2] q_f", "any", "reject", True),
     "bool-cap": ("uint8[true] q_b", "any", "reject", True),
     "set-cap": ("uint8[{1}] q_s", "any", "reject", True),
+    # @extent must come after the last attribute: a field, padding or constant after it is rejected (at either of the two lines)
+    "const-after-extent": ("uint8 LATE_K = 1", "after-extent", "reject", False),
+    "field-after-extent": ("uint8 late_f", "after-extent", "reject", False),
+    "pad-after-extent": ("void8", "after-extent", "reject", False),
+    "bool-const-after-extent": ("bool LATE_B = true", "after-extent", "reject", False),
 }
 LAZY = {  # rejected, located at the statement, but committed lazily by the builder
     "lazy-bad-name": "uint8 _bad_",
@@ -401,6 +406,14 @@ def inject_raw(rng: random.Random, d: dict, name: str) -> tuple[int, int] | None
         text = "uint8 " + rng.choice(named)[2]
     if s.get("union") and (text.startswith("void") or name in ("lazy-named-void",)):
         return None
+    if pos == "after-extent":
+        if s.get("union") and text.startswith("void"):
+            return None
+        # the section becomes delimited with a roomy extent; the attribute line is emitted where the renderer would put the
+        # sealing directive, i.e. right after the (raw) @extent line
+        items.append(["raw", "@extent 8 * 100000", []])
+        s["seal"] = text
+        return si, len(items) - 1
     if pos == "first":
         idx = 0
     elif pos in ("last", "response-last"):
